@@ -182,6 +182,8 @@ extern "C" void harness()
 	static const int opset[] = { Q_ENQUEUE, Q_PROCESS, Q_PROCESS_ONE, Q_PROCESS_IF, Q_CLEAR };          // what the heterogeneous queue offers
 #elif OPSET == 5
 	static const int opset[] = { Q_ENQUEUE, Q_PROCESS, Q_PROCESS_ONE };
+#elif OPSET == 7
+	static const int opset[] = { Q_ENQUEUE, Q_PROCESS, Q_PROCESS_ONE, Q_CLEAR };               // C11's calls as far as the heterogeneous queue has them
 #elif OPSET == 6
 	static const int opset[] = { Q_ENQUEUE, Q_PROCESS, Q_PROCESS_ONE, Q_TAKE, Q_CLEAR };      // exactly the calls C11 quantifies over
 #elif OPSET == 1
